@@ -29,6 +29,9 @@ type ClScenario struct {
 	SlowStop    []string         `json:"slowStop"`
 	End         string           `json:"end"`      // stop | cancel | close
 	EndAfter    int              `json:"endAfter"` // end the run after this many pushes (>= len(maps): after all)
+	// CancelInStop: the parent context is cancelled from inside the first Stop() of a slow-stopping server, i.e. while
+	// an update (or the shutdown) is in its stop phase with that Stop() still in flight
+	CancelInStop bool `json:"cancelInStop,omitempty"`
 }
 
 type clServer struct {
@@ -37,6 +40,7 @@ type clServer struct {
 	rec      *evRec
 	ready    bool
 	slowStop bool
+	onStop   func() // called inside Stop() of a slow-stopping server
 	stopCh   chan struct{}
 	stopOnce sync.Once
 	started  chan struct{}
@@ -59,6 +63,9 @@ func (s *clServer) Run(ctx context.Context) error {
 	case <-ctx.Done():
 	case <-s.stopCh:
 	}
+	if s.slowStop && s.onStop != nil {
+		time.Sleep(30 * time.Millisecond) // a server that drains for a while after it was told to stop
+	}
 	s.state.Store("Stopped")
 	s.live.Add(-1)
 	s.rec.add("RR%d", s.inst)
@@ -69,6 +76,10 @@ func (s *clServer) Stop() {
 	s.rec.add("SI%d", s.inst)
 	s.stopOnce.Do(func() { close(s.stopCh) })
 	if s.slowStop {
+		if s.onStop != nil {
+			s.onStop()
+			time.Sleep(25 * time.Millisecond)
+		}
 		time.Sleep(8 * time.Millisecond)
 	}
 	// like the real httpserver runner: Stop returns only after its Run has been invoked and returned
@@ -107,6 +118,8 @@ func runClScenario(sc ClScenario) clResult {
 	var inst atomic.Int32
 	var onceMu sync.Mutex
 	failedOnce := map[string]bool{}
+	var cancelInStop atomic.Pointer[func()]
+	var cancelled atomic.Bool
 	factory := func(ctx context.Context, id string, cfg *httpserver.Config, _ slog.Handler) (httpcluster.VerifServerRunner, error) {
 		if in(sc.FactoryFail, id) {
 			rec.add("FE:%s", hx(id))
@@ -126,6 +139,13 @@ func runClScenario(sc ClScenario) clResult {
 		rec.add("FA:%s:%d:%d", hx(id), cfgIndex(cfg), n)
 		s := &clServer{id: id, inst: n, rec: rec, ready: !in(sc.NeverReady, id), slowStop: in(sc.SlowStop, id), stopCh: make(chan struct{}),
 			started: make(chan struct{}), done: make(chan struct{}), live: &live}
+		if sc.CancelInStop {
+			s.onStop = func() {
+				if f := cancelInStop.Load(); f != nil {
+					(*f)()
+				}
+			}
+		}
 		s.state.Store("New")
 		return s, nil
 	}
@@ -137,6 +157,9 @@ func runClScenario(sc ClScenario) clResult {
 	must(err)
 	ctx, cancel := context.WithCancel(context.Background())
 	defer cancel()
+	var cancelOnce sync.Once
+	cis := func() { cancelOnce.Do(func() { cancelled.Store(true); rec.add("CX"); cancel() }) }
+	cancelInStop.Store(&cis)
 	watch := watchStates(runner.GetStateChan, 5*time.Millisecond)
 	runDone := make(chan struct{})
 	go func() {
@@ -181,12 +204,15 @@ func runClScenario(sc ClScenario) clResult {
 		}
 		rec.add("PU%d", k)
 		if !push(mk(m)) {
-			res.hung = true
+			res.hung = !cancelled.Load()
 			break
 		}
 		// flush: the unbuffered siphon is received only when the previous update has been fully processed
 		if !push(mk(m)) {
-			res.hung = true
+			res.hung = !cancelled.Load()
+			break
+		}
+		if cancelled.Load() {
 			break
 		}
 		for i := 0; i < 400 && runner.GetState() == "Reloading"; i++ {
@@ -196,7 +222,12 @@ func runClScenario(sc ClScenario) clResult {
 		rec.add("CN%d:%d:%s", k, runner.GetServerCount(), runner.GetState())
 	}
 	if !res.hung {
-		switch sc.End {
+		end := sc.End
+		if cancelled.Load() {
+			end = "none" // the run was ended from inside a Stop()
+		}
+		switch end {
+		case "none":
 		case "cancel":
 			rec.add("CX")
 			cancel()
@@ -316,6 +347,9 @@ func genClScenario(r interface {
 			sc.NeverReady = append(sc.NeverReady, id)
 		case 2:
 			sc.SlowStop = append(sc.SlowStop, id)
+			if r.IntN(3) == 0 {
+				sc.CancelInStop = true
+			}
 		case 3:
 			sc.FailOnce = append(sc.FailOnce, id)
 		}
@@ -324,6 +358,11 @@ func genClScenario(r interface {
 }
 
 var clCorpus = []ClScenario{
+	// the parent context ends while an update is stopping a removed / a changed server whose Stop() takes its time:
+	// Run() returns only after that server has stopped
+	{IDs: []string{"a", "b"}, Maps: []map[string]int{{"a": 0, "b": 0}, {"b": 0}}, SlowStop: []string{"a"}, CancelInStop: true, End: "cancel", EndAfter: 2},
+	{IDs: []string{"a", "b"}, Maps: []map[string]int{{"a": 0, "b": 0}, {"a": 1, "b": 0}}, SlowStop: []string{"a"}, CancelInStop: true, End: "cancel", EndAfter: 2},
+	{IDs: []string{"a"}, Maps: []map[string]int{{"a": 0}, {}}, SlowStop: []string{"a"}, CancelInStop: true, End: "stop", EndAfter: 2},
 	{IDs: []string{"a", "b"}, Maps: []map[string]int{{"a": 0, "b": 0}, {"a": 1, "b": 0}, {"b": 0}}, End: "stop", EndAfter: 3},
 	{IDs: []string{"a", "a:stop"}, Maps: []map[string]int{{"a": 0}, {"a": 1, "a:stop": 2}}, End: "stop", EndAfter: 2}, // finding C16-F1 (open)
 	{IDs: []string{"a", "b"}, Maps: []map[string]int{{"a": 0, "b": 0}, {"a": 0, "b": 1}}, FactoryFail: []string{"b"}, End: "cancel", EndAfter: 2},
